@@ -105,3 +105,52 @@ Proof.
   unfold set_of_ids. induction l as [|x l IH]; cbn [fold_right]; [reflexivity|].
   rewrite insert_sortedN_In, IH. cbn. intuition.
 Qed.
+
+(* an upper-cased command never starts with a lower-case 's': client lines cannot name server_ handlers *)
+Lemma to_upper_not_s x r : to_upper x <> String "s" r.
+Proof.
+  destruct x as [|c x']; cbn [to_upper]; [discriminate|]. intros H. injection H as H _.
+  apply (f_equal N_of_ascii) in H. unfold chr in H.
+  assert (Hlt : (upper_byte (byte_of c) < 256)%N).
+  { unfold upper_byte, byte_of. pose proof (N_ascii_bounded c). destruct (in_range 97 122 (N_of_ascii c)); lia. }
+  rewrite N_ascii_embedding in H by exact Hlt. cbn in H.
+  unfold upper_byte, in_range in H. destruct ((97 <=? byte_of c)%N && (byte_of c <=? 122)%N) eqn:E.
+  - apply andb_true_iff in E. destruct E as [E1 E2]. apply N.leb_le in E1, E2. lia.
+  - rewrite H in E. cbn in E. discriminate.
+Qed.
+
+Lemma srev_involutive s : srev (srev s) = s.
+Proof.
+  induction s as [|c r IH]; [reflexivity|]. rewrite srev_cons, srev_append, IH. reflexivity.
+Qed.
+
+Fixpoint no_crlf (s : string) : bool :=
+  match s with EmptyString => true | String c r => negb (is_crlf c) && no_crlf r end.
+
+(* a non-empty CR/LF-free prefix survives trim_crlf *)
+Lemma trim_crlf_keeps_prefix p rest :
+  p <> "" -> no_crlf p = true -> exists rest', trim_crlf (p ++ rest) = p ++ rest'.
+Proof.
+  intros Hne Hp. unfold trim_crlf.
+  destruct p as [|c p']; [congruence|]. cbn [no_crlf] in Hp. apply andb_true_iff in Hp. destruct Hp as [Hc Hp'].
+  apply negb_true_iff in Hc. cbn [String.append drop_while]. rewrite Hc.
+  change (String c (p' ++ rest)) with (String c p' ++ rest).
+  (* the last character of the prefix stops the trimming from the right *)
+  assert (Hlast : exists q d, srev (String c p') = String d q /\ is_crlf d = false).
+  { clear Hne. revert c Hc. induction p' as [|e p'' IH]; intros c Hc.
+    - exists "", c. split; [reflexivity|exact Hc].
+    - cbn [no_crlf] in Hp'. apply andb_true_iff in Hp'. destruct Hp' as [He Hp''].
+      apply negb_true_iff in He. destruct (IH Hp'' e He) as (q & d & Hq & Hd).
+      rewrite srev_cons, Hq. exists (q ++ String c ""), d. split; [reflexivity|exact Hd]. }
+  destruct Hlast as (q & d & Hq & Hd).
+  rewrite srev_append, Hq. cbn [String.append].
+  destruct (drop_while_keeps is_crlf (srev rest) d q Hd) as [a' Ha]. rewrite Ha.
+  rewrite srev_append. rewrite <- Hq, srev_involutive. now exists (srev a').
+Qed.
+
+Lemma parse_quit q : exists ps, parse_message ("QUIT :" ++ q) = Some (IMsg None "QUIT" ps).
+Proof.
+  unfold parse_message.
+  destruct (trim_crlf_keeps_prefix "QUIT :" q) as [rest' ->]; [discriminate|reflexivity|].
+  cbn. eexists. reflexivity.
+Qed.
